@@ -80,7 +80,12 @@ def main():
         sys.exit(1 if still else 0)
 
     tie_problems = []
-    with common.build_lock():
+    dev = os.environ.get("VERIF_DEV") == "1"   # development only: skip make / full extraction
+    if dev:
+        obligations, discharged, axioms, theorems, problems = common.property_audit(prop)
+        tie_problems += problems
+    else:
+      with common.build_lock():
         ok, log = common.ensure_build()
         if not ok:
             tie_problems.append("coq build failed: " + log.strip()[-600:])
@@ -127,7 +132,8 @@ def main():
             print("KNOWN-FINDING: property=%s %s [%s]" % (prop, known_sigs[v.sig].get("what", v.what), v.sig))
         else:
             path = common.write_replay(prop, v)
-            print("VIOLATION property=%s replay=%s  # %s" % (prop, path, v.what))
+            print("VIOLATION property=%s replay=%s" % (prop, path))
+            print("  # " + v.what[:600].replace("\n", " "))
             nviol += 1
             exit_code = 1
     if ties and not unlisted_concrete:
